@@ -392,7 +392,11 @@ fn gen_kdb_forest(rng: &mut Rng, dup_names: bool) -> (Vec<KGroup>, Vec<KEntry>) 
         if i > 0 {
             level = rng.below(level as u64 + 2) as u16;
         }
-        let name = if dup_names { names[rng.below(3) as usize].to_string() } else { format!("{}{}", names[i % names.len()], i) };
+        let mut name = if dup_names { names[rng.below(3) as usize].to_string() } else { format!("{}{}", names[i % names.len()], i) };
+        if !dup_names && rng.chance(1, 4) {
+            // trailing white space is content: "Work " and "Work" are different names
+            name.push(*rng.pick(&[' ', '\t', '\n']));
+        }
         groups.push(KGroup { gid: 100 + i as u32 * 7, name, level });
     }
     let ne = rng.below(6) as usize;
@@ -402,7 +406,7 @@ fn gen_kdb_forest(rng: &mut Rng, dup_names: bool) -> (Vec<KGroup>, Vec<KEntry>) 
         let mut fields = Vec::new();
         for t in [4u16, 5, 6, 7, 8, 0xd] {
             if rng.chance(3, 4) {
-                fields.push((t, cstr(*rng.pick(&["t", "user", "http://x", "sécret", "", "n o t e"]))));
+                fields.push((t, cstr(*rng.pick(&["t", "user", "http://x", "sécret", "", "n o t e", "pw ", "line\r\n", " lead", "tab\t", " "]))));
             }
         }
         if rng.chance(1, 3) {
@@ -695,6 +699,14 @@ pub fn run_fuzz(ctx: &mut Ctx) {
                         (build_kdbx3_raw(&s2, &order), "iv-length".into())
                     }
                     4 => { let mut s2 = s.clone(); s2.transform_seed = rng.bytes_pick(&[0, 16, 31, 33]); (build_kdbx3_raw(&s2, &order), "transform-seed-length".into()) }
+                    5 if mi % 16 == 5 => {
+                        // a header field whose length is at the top of the 16-bit range (really that many bytes): the file still opens
+                        let len = *rng.pick(&[65_535usize, 65_534, 65_533, 65_532]);
+                        let mut d = data[..12].to_vec();
+                        tlv2(&mut d, 1, &rng.bytes(len));
+                        d.extend_from_slice(&data[12..]);
+                        (d, format!("maximal-comment-field:{}", len))
+                    }
                     5 => { let mut d = data[..12].to_vec(); d.extend(rng.bytes_below(60)); (d, "signature-then-random".into()) }
                     6 => {
                         // short typed fields
